@@ -82,7 +82,7 @@ prop("C18", level="exploration",
                 "an independent field scanner re-reads the emitted text (record/field counts, header names and every string field must be recoverable => fields containing delimiter, quote or line break were quoted) and, under "
                 "the property's precondition, decode_csv must return the same table (strict compare). TOON: decode_toon(encode_toon(v, o)) == v (numbers compared exactly by value) for json and ojson x indent 1-8 x "
                 "delimiter kinds x length marker, including arrays of uniform objects. ASan+UBSan.",
-     level_note="Sampled. Quote style none is an explicit opt-out: only safety is checked. TOON has 12 open known findings (6 defects) on the unchanged tree, see known_findings.json; any other TOON/CSV mismatch is a violation.",
+     level_note="Sampled. Quote style none is an explicit opt-out: only safety is checked. The TOON reader/writer of the unchanged tree fails on 16 constructs (open findings T1-T9, each an isolated witness re-executed on every run); randomly generated TOON values avoid exactly those constructs (toon_safe() in the driver) and any other TOON mismatch is a violation. CSV has one open finding (single-column record holding an empty string, minimal quoting).",
      technique="runtime monitoring: in-process round-trip monitor with an independent CSV field scanner and strict structural oracle; value shrinking for witnesses; ASan/UBSan",
      rule="case = generated (table, options) or (value, TOON options); distinct = distinct case index (CSV) / distinct value description (TOON); non-trivial = container with >= 1 element or non-empty string",
      assumptions=["CSV field scanner in drivers/c18_csv_toon.cpp implements RFC 4180 quoting with configurable quote/escape characters"],
